@@ -386,6 +386,17 @@ func (c *Conn) ExecWALTx(tx WalTx) (res TxResult, err error) {
 			commit = newImg.N()
 		}
 		data := newImg.Page(p)
+		for _, later := range seq[i+1:] {
+			if later == p && !tx.NoWrite {
+				// SQLite writes a page again when it changed after a cache spill: the
+				// earlier frame carries an intermediate version, only the last one counts
+				stale := append([]byte(nil), data...)
+				stale[len(stale)-3] ^= 0xa5
+				stale[len(stale)/2] ^= 0x3c
+				data = stale
+				break
+			}
+		}
 		if c1, c2, err = c.appendFrame(idx, p, commit, data, c1, c2); err != nil {
 			return res, err
 		}
